@@ -274,7 +274,10 @@ func c06EscapeDecode(s string) (string, int) {
 		return d, 2
 	}
 	n := map[byte]int{'x': 2, 'u': 4, 'U': 8}[s[1]]
-	if n == 0 || len(s) < 2+n {
+	if n == 0 {
+		return s[1:2], 2 // any other escaped character stands for itself (yaml.v3 accepts \')
+	}
+	if len(s) < 2+n {
 		return "", 2
 	}
 	v, err := strconv.ParseUint(s[2:2+n], 16, 32)
